@@ -60,6 +60,46 @@ def unwind_drops(a, call):
     return dropped, True
 
 
+SHORT_CIRCUIT = ("try_for_each", "try_fold", "try_rfold", "find", "find_map", "any", "all", "position", "rposition", "take_while", "map_while", "try_find", "rfind")
+
+
+def never_breaks(call):
+    """The driver cannot stop before its pipeline is exhausted: a plain fold / for_each / collect, or a `try_*` driver whose residual type is
+    uninhabited (`Result<_, Infallible>`, `Result<_, !>`)."""
+    name = call.fn.split("::")[-1]
+    if name not in SHORT_CIRCUIT:
+        return True
+    if not name.startswith("try_"):
+        return False
+
+    def infallible(t, depth=0):
+        if t is None or depth > 3:
+            return False
+        if t.get("k") == "adt" and t["def"] == "core::result::Result":
+            e = [x for x in t["args"] if x.get("k") != "region"]
+            return len(e) == 2 and ((e[1].get("k") == "adt" and e[1]["def"] == "core::convert::Infallible") or e[1].get("k") == "never")
+        if t.get("k") == "adt" and t["def"] == "core::ops::ControlFlow":
+            e = [x for x in t["args"] if x.get("k") != "region"]
+            return bool(e) and ((e[0].get("k") == "adt" and e[0]["def"] == "core::convert::Infallible") or e[0].get("k") == "never")
+        return False
+    return any(infallible(t) for t in call.targs)
+
+
+def resolved_args(a, call):
+    """The call's arguments with a `&mut iterator` receiver replaced by the iterator pipeline it points to (try_fold / try_for_each / by_ref take
+    `&mut self`)."""
+    from .absint import State
+    out = []
+    for x in call.args:
+        if isinstance(x, tuple) and len(x) == 4 and x[0] == "P" and x[3] is None and not x[2].t and x[1] and x[1][0] == "local":
+            v = a.read_cell(State(call.mem, call.facts), x[1], (), None)
+            if isinstance(v, tuple) and len(v) >= 3 and v[0] == "V" and v[1] == "iter":
+                out.append(v)
+                continue
+        out.append(x)
+    return out
+
+
 LOW_POS = {"index", "position"}      # claimed range is [pos, ..): consumers advance it past a slot they moved out
 HIGH_POS = {"index_back"}            # claimed range is [.., pos): shrinks from the back
 
@@ -83,6 +123,27 @@ def indexed_traversal(ap, drv, g, info, role, owners):
     c = 1 on a low position travelling forward, c = 0 on a high position travelling backward (so the slot just moved out is disowned), or - for a
     builder - c = 1 on its position travelling forward (the slot just written is counted)."""
     from .absint import State
+    if not info.get("indexed") and info.get("enum_abs"):
+        # `*pos = k + 1` with k the index `enumerate()` pairs with slot k: the pipeline must enumerate the owner's slots from slot 0 directly
+        # (index k IS the slot's position), travelling forward, and the position must be 0 at the driver call
+        from .typestate import upvar_of  # noqa: F401
+        st = State(drv.mem, drv.facts)
+        enums = []
+        for x in resolved_args(ap, drv):
+            enums += find_in(x, lambda t: isinstance(t, tuple) and len(t) == 4 and t[0] == "V" and t[1] == "iter" and t[2] == "enumerate")
+        direct = [e for e in enums if isinstance(e[3], tuple) and len(e[3]) == 5 and e[3][:3] == ("V", "iter", "slice") and not e[3][3][2].t]
+        rev = any(find_in(x, lambda t: isinstance(t, tuple) and len(t) >= 3 and t[0] == "V" and t[1] == "iter" and t[2] in ("rev", "skip", "step_by", "filter", "chain")) for x in resolved_args(ap, drv))
+        if len(enums) != 1 or len(direct) != 1 or rev:
+            return None, "the cursor is stored as `index + 1` but the pipeline does not enumerate the owner's slots from slot 0 directly (enumerate sites: %d)" % len(enums)
+        for k in info["positions"]:
+            op = g["ops"][k] if k < len(g["ops"]) else None
+            if op is not None and op[0] == "P" and op[1][0] == "field" and len(op[1][2]) == 1:
+                c = info["abs"].get(k)
+                v = ap.read_cell(st, op[1][1], (op[1][2][0],), {"k": "prim", "n": "usize"})
+                zero = v[0] == "I" and ap.prove(drv.facts, "Eq", v[1], Poly.const(0))
+                if c is not None and (c != 1 or not zero):
+                    return None, "absolute store `*pos = index + %d` needs index + 1 and a position that is 0 when the traversal starts (position at the driver: %s)" % (c, vstr(v))
+        return [], ""
     if not info.get("indexed"):
         return [], ""
     rd = range_driver(drv)
@@ -163,13 +224,13 @@ def link_closure(ctx, cfg, cb, info, role, rule):
     cval = ("A", g["kind"], g["ops"])
     cl = Classifier(db)
     # the call that drives the closure: a foreign call whose arguments contain the closure value
-    drivers = [c for c in ap.calls if cl.classify(c, parent) == "foreign" and any(find_in(x, lambda t: t == cval) for x in c.args)]
+    drivers = [c for c in ap.calls if cl.classify(c, parent) == "foreign" and any(find_in(x, lambda t: t == cval) for x in resolved_args(ap, c))]
     if len(drivers) != 1:
         ctx.ob(rule, cb["key"] + "#driver", UNKNOWN, "expected one call consuming the pipeline that contains the closure, found %d" % len(drivers), at=parent["at"], cfg=cfg)
         return
     drv = drivers[0]
     slices = []
-    for x in drv.args:
+    for x in resolved_args(ap, drv):
         slices += find_in(x, lambda t: isinstance(t, tuple) and len(t) == 5 and t[0] == "V" and t[1] == "iter" and t[2] == "slice")
     slice_bases = [s[3][1] for s in slices]
     # index-addressed slots (`base.add(i)` with i yielded by a range): the storage is what the base upvar points to, the driver must run
@@ -177,7 +238,7 @@ def link_closure(ctx, cfg, cb, info, role, rule):
     ix_ok, ix_det = indexed_traversal(ap, drv, g, info, role, owners)
     for b_ in ix_ok or ():
         slice_bases.append(b_)
-    if info.get("indexed") and ix_ok is None:
+    if (info.get("indexed") or info.get("enum_abs")) and ix_ok is None:
         ctx.ob(rule, cb["key"] + "#indexed", REFUTED, ix_det, at=parent["at"], cfg=cfg)
         return
     if role in ("consumer", "builder"):
